@@ -377,8 +377,7 @@ Proof.
     + exists (Some (Obj (merge_kvs kb []))). split; [reflexivity|]. split; [reflexivity|].
       split; [|split].
       * intros p. cbn [jwalk]. rewrite (walk_merge_obj (Obj kb) WFb).
-        destruct p; cbn; auto. destruct (alookup k kb); cbn; auto.
-        destruct (deeper (walk t p)); cbn; auto. now rewrite Nat.max_0_r.
+        destruct p; cbn; auto.
       * intros _. apply (wfT_tmerge (Obj kb) WFb (Some (Obj []))). apply wfT_obj. split; constructor.
       * split; [discriminate|]. intros [_ H]; discriminate.
     + exists (Some (Obj (merge_kvs kb ka))). split; [reflexivity|]. split; [reflexivity|].
@@ -389,17 +388,11 @@ Proof.
 Qed.
 
 (* ------------------------------------------------------------------ remove one top-level key *)
-Definition hide (k : key) (p : path) (w : wres) : wres :=
-  match p with
-  | k' :: _ => if String.eqb k' k then Silent 0 else w
-  | [] => w
-  end.
-
 Lemma jwalk_remove1 j k p :
   objnone j = true -> jwalk (option_map (tremove [k]) j) p = hide k p (jwalk j p).
 Proof.
   intros H. destruct (objnone_cases _ H) as [->|[kvs ->]]; cbn.
-  - destruct p; cbn; auto. now destruct (String.eqb k0 k).
+  - destruct p as [|k0 p]; cbn; auto. now destruct (String.eqb k0 k).
   - destruct p as [|k' p]; cbn; auto.
     rewrite alookup_aremove. now destruct (String.eqb k' k).
 Qed.
@@ -417,13 +410,9 @@ Lemma hide_combine k p a b : combine (hide k p a) (hide k p b) = hide k p (combi
 Proof. destruct p as [|k' p]; cbn; auto. now destruct (String.eqb k' k). Qed.
 
 (* ------------------------------------------------------------------ sub-trees *)
-Fixpoint deepern (n : nat) (w : wres) : wres :=
-  match n with O => w | S n' => deeper (deepern n' w) end.
-
 Lemma rebase_deeper n w : rebase (S n) (deeper w) = rebase n w.
 Proof.
   destruct w; cbn [deeper rebase]; auto.
-  change (S d <? S n) with (d <? n). destruct (d <? n); auto.
 Qed.
 
 Lemma rebase_0 w : rebase 0 w = w.
@@ -508,3 +497,39 @@ Proof. destruct (canon_cases s) as [-> | ->]; split; cbn; congruence. Qed.
 
 Lemma canon_idem s : canon (canon s) = canon s.
 Proof. destruct (canon_cases s) as [-> | ->]; reflexivity. Qed.
+
+(* ------------------------------------------------------------------ "first defined" reading *)
+Lemma all_silent l p : (forall y, In y (priority l) -> silent (lwalk y p)) -> silent (lwalk l p).
+Proof.
+  induction l as [X q|lo IHlo hi IHhi]; intros H.
+  - apply H. now left.
+  - cbn [priority] in H. cbn [lwalk].
+    destruct IHlo as [d' ->]; [intros y Hy; apply H, in_app_iff; auto|].
+    destruct IHhi as [d ->]; [intros y Hy; apply H, in_app_iff; auto|].
+    cbn. eexists; reflexivity.
+Qed.
+
+Lemma first_defined l p : forall i x,
+  nth_error (priority l) i = Some x ->
+  (forall j y, j < i -> nth_error (priority l) j = Some y -> silent (lwalk y p)) ->
+  hit (lwalk x p) ->
+  lwalk l p = lwalk x p.
+Proof.
+  induction l as [X q|lo IHlo hi IHhi]; intros i x Hn Hs Hh.
+  - destruct i; cbn in Hn; [now injection Hn as <-|]. destruct i; discriminate.
+  - cbn [priority] in Hn, Hs. cbn [lwalk].
+    destruct (Nat.lt_ge_cases i (List.length (priority hi))) as [Hi|Hi].
+    + rewrite nth_error_app1 in Hn by assumption.
+      rewrite (IHhi i x Hn); auto.
+      * destruct Hh as [->|[v ->]]; reflexivity.
+      * intros j y Hj Hy. apply (Hs j y Hj). rewrite nth_error_app1; auto. lia.
+    + rewrite nth_error_app2 in Hn by assumption.
+      assert (Hsil : silent (lwalk hi p)).
+      { apply all_silent. intros y Hy. apply In_nth_error in Hy. destruct Hy as [j Hj].
+        assert (j < List.length (priority hi)) by (apply nth_error_Some; congruence).
+        apply (Hs j y); [lia|]. rewrite nth_error_app1; auto. }
+      rewrite (IHlo _ x Hn); auto.
+      * destruct Hsil as [d ->]. destruct Hh as [->|[v ->]]; reflexivity.
+      * intros j y Hj Hy. apply (Hs (List.length (priority hi) + j) y); [lia|].
+        rewrite nth_error_app2 by lia. now replace (List.length (priority hi) + j - List.length (priority hi)) with j by lia.
+Qed.
